@@ -91,6 +91,10 @@ def gen_cases(tier, seed):
         dist['plan']['faults'] = [{'at': f't{v}/s3:{first}#0', 'phase': 'before', 'kind': 'exc', 'tag': f'FAULT-v{v}'}]
         if victim_kind == 'download':
             base['plan']['gate']['match'] = dist['plan']['gate']['match'] = '.read#'
+        if rng.random() < 0.35:
+            # the victim fails INSIDE ITS SUBMISSION STEP with a BaseException that is not an Exception (sys.exit() in on_queued, a
+            # framework's cancellation class): still one transfer's own failure
+            dist['plan']['faults'] = [{'at': f't{v}/cb:on_queued:s0#0', 'phase': 'before', 'kind': rng.choice(['systemexit', 'base']), 'tag': f'FAULT-v{v}'}]
         cases.append({'base': base, 'dist': dist, 'victims': [v], 'style': 'first-fails-others-held', 'exit': 'shutdown_plain'})
     # cancelling exits (shutdown(cancel=True), exception / KeyboardInterrupt leaving the with-block) with several transfers in
     # progress, few request threads and requests held at gates, so that final tasks are still queued when the exit begins
@@ -218,7 +222,10 @@ def barrier_violations(obs):
         out.append(V(f'stage threads still alive after shutdown returned and the process went quiet: {obs.live_stage_threads[:4]}',
                      sym='threads-survive-shutdown'))
     if obs.shutdown_exc is not None and not isinstance(obs.shutdown_exc, KeyboardInterrupt):
-        out.append(V(f'shutdown raised {obs.shutdown_exc!r}', sym='shutdown-raised'))
+        # (a BaseException that is not an Exception - SystemExit from a callback, say - which a transfer recorded as its failure comes
+        # out of the exit's own wait; the statement speaks of the exit RETURNING, so that is not judged - everything else still is)
+        if isinstance(obs.shutdown_exc, Exception) or not oracles.find_tags(obs.shutdown_exc):
+            out.append(V(f'shutdown raised {obs.shutdown_exc!r}', sym='shutdown-raised'))
     unfinished = 0
     sb = [e for e in obs.events if e['kind'] == 'shutdown.begin']
     if sb:
